@@ -53,10 +53,12 @@ pub struct GenOpts {
     /// structured malformations (C10): LENGTH >= 16, more than 18 categories, undefined / missing
     /// categories in range lines, ids outside the connector
     pub malformed: bool,
+    /// 1 dictionary in 8 has 21..48 connection ids on a side (sorts of more than 20 elements)
+    pub many_ids: bool,
 }
 impl Default for GenOpts {
     fn default() -> Self {
-        GenOpts { force_space: false, allow_uncovered: true, with_user: 35, tie_heavy: false, malformed: false }
+        GenOpts { force_space: false, allow_uncovered: true, with_user: 35, tie_heavy: false, malformed: false, many_ids: false }
     }
 }
 
@@ -150,8 +152,9 @@ pub fn gen_dict(rng: &mut Rng, o: &GenOpts) -> GenDict {
         ranges.push(RangeLine { start: 0x20, end_incl: 0x20, cats: vec!["SPACE".to_string()] });
     }
     // connection ids
-    let nright = 1 + rng.below(5) as usize;
-    let nleft = 1 + rng.below(5) as usize;
+    let big = o.many_ids && rng.chance(1, 8);
+    let nright = if big { 21 + rng.below(28) as usize } else { 1 + rng.below(5) as usize };
+    let nleft = if big { 21 + rng.below(28) as usize } else { 1 + rng.below(5) as usize };
     let matrix: Vec<Vec<i16>> = (0..nright).map(|_| (0..nleft).map(|_| gen_cost(rng, tie)).collect()).collect();
     // unk.def
     let mut unk = vec![];
